@@ -979,7 +979,16 @@ class Engine:
         if kind == "method":
             fi = r[2]
             if fi.kind == "property":
-                return self.call_function(fi, [base], {}, self_cls=classes[0] if classes else None, node=node)
+                run = self.run
+                if run.prop_depth >= 4:
+                    # chains like x.name -> x._gate_def.name -> ... on values of unknown class:
+                    # cut off with an unconstrained value (a weaker fact, never an unsound one)
+                    return tv_val(S.fld("@prop_" + attr)(base.t))
+                run.prop_depth += 1
+                try:
+                    return self.call_function(fi, [base], {}, self_cls=classes[0] if classes else None, node=node)
+                finally:
+                    run.prop_depth -= 1
             return BoundMethod(base, attr, candidates=[(classes, fi)])
         if kind == "attr":
             owner, expr = r[1], r[2]
@@ -1648,6 +1657,7 @@ class Run:
         self.func_attrs = {}
         self.inc = None
         self.deadline = None
+        self.prop_depth = 0
         self.cur_line = None
         self.modifies = ()
         self.mod_bound = {}
